@@ -40,7 +40,7 @@ type OS[T comparable, P Object[T]] struct {
 	// pools for illegal transitions
 	BadVals [][]string // per metric: strings that are not legal values of it
 	BadAbvs []string
-	Foreign []func(string) bool // other versions' parsers: true when they accept
+	Foreign []func(string) bool                         // other versions' parsers: true when they accept
 	Extra   func(a spec.Assignment, o *T, state string) // optional per-state hook (C16)
 }
 
@@ -480,7 +480,7 @@ func (s *OS[T, P]) Sweep(dims []Dim, bg spec.Assignment, preds Pred, workers int
 				if prevVec != prevClone {
 					s.R.Violation(Case{Kind: "obj-retained", Key: "v" + ver.Name + "/Vector/returned-string-changed-later",
 						Expected: "the string returned by Vector() keeps reading " + prevClone, Observed: "after serialising and parsing another object it reads " + strings.Clone(prevVec),
-						Args:     map[string]any{"version": ver.Name, "first": prevClone, "then": ver.Full(a)}}, nil)
+						Args: map[string]any{"version": ver.Name, "first": prevClone, "then": ver.Full(a)}}, nil)
 				}
 				prevVec, prevClone = vec, strings.Clone(vec)
 			}
